@@ -210,6 +210,12 @@ func runCase(r *h.Run, c caseT) {
 		if c.MaxWB {
 			conf.MaxWriteBufferSize = 256 << 10
 		}
+		if (c.Seed>>8)%3 == 0 {
+			// asynchronous reading in every epoll mode (the engine creates its own IO task pool whenever the
+			// flag is set and no executor is supplied - also in LT, where the poller does not use it)
+			conf.AsyncReadInPoller = true
+			r.Seen("async_read_cells", c.Net+"/"+c.Mode)
+		}
 		switch c.Mode {
 		case "ET":
 			conf.EpollMod = nbio.EPOLLET
